@@ -340,6 +340,40 @@ PROPS["C15"]["level_text"] += " Thorough adds a Miri lane over the same generato
 for _p, _n in (("C04", 30), ("C01", 20), ("C07", 30)):
     PROPS[_p]["lanes"] += [lane("cmdlab-miri", "cmdlab", "cmdlab", "miri", _p, {"budget": 16}, {"budget": _n * 16}, 4, 16, tiers=("thorough",))]
 
+# ---- second / third round additions (floors and descriptions of the added workloads) ----------------
+for _p in ("C01", "C03", "C05", "C06"):
+    PROPS[_p]["floors"]["quick"]["conservation_cases"] = 2000
+    PROPS[_p]["technique"] += "; model-free conservation monitor (request log at the sending point / emission log vs what the host hands over) for aborts made from inside a task"
+    PROPS[_p]["rule"] += "; plus conservation cases: a stopper task aborts a command (its own or a sibling's) in the middle of a pass, on every host kind; whatever the abort timing, requests made == requests handed over and events emitted == events delivered, exactly once"
+for _p in ("C01", "C03"):
+    PROPS[_p]["floors"]["quick"]["long_cases"] = 16
+    PROPS[_p]["rule"] += "; plus long cases: one command producing 120-420 outputs in one burst or over a long subscription (45-140 items), through typed cores, legacy, mixed and bridge hosts"
+PROPS["C01"]["must_cover"]["hosts"] = ["CoreLegacy", "CoreMixed", "BridgeBincode", "BridgeJson"]
+PROPS["C02"]["floors"]["quick"]["wide_cases"] = 4
+PROPS["C02"]["must_cover"]["hosts"] += ["CoreMixed"]
+PROPS["C02"]["rule"] += "; plus wide cases (1100-4200 requests outstanding at once over the bridges) and the Mixed setup (capability futures awaited inside Command tasks)"
+PROPS["C04"]["floors"]["quick"]["steps_with_outputs_left_queued_by_a_lagging_consumer"] = 2000
+PROPS["C04"]["must_cover"] = dict(PROPS["C04"].get("must_cover", {}), hosts=["Direct", "DirectLag", "StreamHost", "StreamLagHost", "EagerHost"])
+PROPS["C04"]["rule"] += "; hosts include lagging consumers (StreamLag: takes 1-3 outputs and leaves the rest queued while the next action happens; DirectLag: leaves events queued and asks is_done() before draining), compared cumulatively"
+PROPS["C06"]["floors"]["quick"]["steps_with_outputs_left_queued_by_a_lagging_consumer"] = 1000
+PROPS["C05"]["must_cover"]["hosts"] = sorted(set(PROPS["C05"]["must_cover"]["hosts"]) | {"CoreMixed", "StreamLagHost"})
+PROPS["C08"]["floors"]["quick"]["scenarios_answering_one_stream_id_from_two_threads"] = 50
+PROPS["C08"]["rule"] += "; bridge scenarios include two threads answering the same stream id at once"
+PROPS["C11"]["floors"]["quick"].update({"timer_race_replays": 1500, "timer_histories_replayed": 20})
+PROPS["C11"]["rule"] += "; every other in-process replay makes each bridge call from a fresh OS thread; capability-API timer histories (start / clear pending / answer / late clear, several timers) are replayed 24x in one process; command-level timer histories where the shell's answer and the app's clear are both waiting are replayed 48x"
+PROPS["C12"]["rule"] += "; the app has work that starts when a request's task ends (then, join) and subscriptions whose consumer ends: after a rejected response the follow-up requests are compared with the twin's, a certainly-invalid event is offered while work is pending, well-formed items for ended subscriptions must be rejected the same way on both bridges"
+PROPS["C14"]["must_cover"]["body_kinds"] = sorted(set(PROPS["C14"]["must_cover"]["body_kinds"]) | {"json(typed value)"})
+PROPS["C14"]["must_cover"]["methods"] = sorted(set(PROPS["C14"]["must_cover"]["methods"]) | {"GET!", "POST!", "TRACE!", "OPTIONS!", "PATCH!", "PUT!", "DELETE!", "HEAD!", "CONNECT!"})
+PROPS["C14"]["rule"] += "; methods marked ! go through the API's named constructor (get, trace, ...); typed JSON bodies are compared byte for byte with what the value's own Serialize writes"
+PROPS["C16"]["floors"]["quick"]["redirect_stacks_with_marks_compared"] = 800
+PROPS["C16"]["rule"] += "; in redirect cases the marks of the surrounding middleware are compared too (before Redirect: original URL once; after Redirect: final URL once; probes pass through neither), Redirect also at client level"
+PROPS["C18"]["floors"]["quick"].update({"legacy_multi_timer_runs": 100, "set_then_clear_in_one_update": 60})
+PROPS["C18"]["must_cover"]["timer_constructions"] = ["builder.then_send", "into_future at construction, awaited in the task"]
+PROPS["C18"]["rule"] += "; each sequence runs for notify_after / notify_at, two constructions of the timer command (builder chain; into_future at construction time, awaited later) and zero duration / the epoch; start+clear in one update through both APIs; several capability-API timers at once with other timers cleared late in between"
+PROPS["C20"]["floors"]["quick"].update({"sibling_swap_renumberings": 14, "load_failures_injected": 10, "own_protocol_types_required": 18})
+PROPS["C20"]["must_cover"]["descriptions"] = sorted(set(PROPS["C20"]["must_cover"]["descriptions"]) | {"crux_core", "crux_http", "crux_kv", "crux_platform", "crux_time"})
+PROPS["C20"]["rule"] += "; roots are the 7 bundled apps and the 5 capability crates on their own (whose registries must contain their protocol types); renumberings: affine, dense, forced cross-crate collisions, sibling swaps; fault injection: each dependent crate's description unavailable in turn (the run must fail or stay closed)"
+
 ENGINES = [
     {"name": "cmdlab", "path": "harness/cmdlab", "serves_properties": ["C01", "C02", "C03", "C04", "C05", "C06", "C07", "C09"],
      "kind_free_text": "random program generator + executable reference model of command semantics + hosts (direct, stream-polled, nested, Core, legacy, bincode/JSON bridge) run in lock-step on the real crux code"},
